@@ -1704,10 +1704,10 @@ func builtinInsertSorted(env *LEnv, args *LVal) *LVal {
 	var cells []*LVal
 	switch typespec.Str {
 	case "vector":
-		v = Array(QExpr([]*LVal{Int(1 + list.Len())}), nil)
+		v = Array(QExpr([]*LVal{Int(1 + len(inCells))}), nil)
 		cells = seqCells(v)
 	case "list":
-		cells = make([]*LVal, 1+list.Len())
+		cells = make([]*LVal, 1+len(inCells))
 		v = QExpr(cells)
 	default:
 		return env.Errorf("type specifier is invalid: %v", typespec)
